@@ -365,6 +365,9 @@ def resolve_globs(glob_path: str, root_path: str = None) -> list[str]:
     True
     """
     if not os.path.isabs(glob_path) and root_path:
+        # "." and "./" name the root itself, pathlib rejects them as glob patterns
+        if os.path.normpath(glob_path) == os.curdir:
+            return [str(Path(root_path).resolve())]
         return [str(p.resolve()) for p in Path(root_path).resolve().glob(glob_path)]
     p = Path(glob_path).resolve()
     root = p.anchor  # drive letter + root path
